@@ -9,3 +9,9 @@ open Mud.C13
 #print axioms restart_counter_witness
 #print axioms Mud.StepThm.shRun_append
 #print axioms Mud.StepThm.shEnd_last
+#print axioms Mud.StepThm.shRun_drop
+#print axioms Mud.StepThm.ehRun_append
+#print axioms Mud.StepThm.ehRun_drop
+#print axioms Mud.StepThm.cumRun_append
+#print axioms Mud.StepThm.cumRun_drop
+#print axioms Mud.StepThm.verletRun_add
